@@ -18,6 +18,8 @@ import Proofs.PlacementValid
 import Proofs.PlacementMarks
 import PM.DomWalk
 import Proofs.DomWalk
+import Proofs.PlacementNoInternal
+import Proofs.DomWalkSafe
 namespace PM.C19
 open PM.Dom
 
@@ -572,13 +574,15 @@ theorem parse_valid (P : Parser) (hdet : Det P.S) (hts : TextStable P.S) (hleaf 
         subst h
         refine placement_finish_valid P.S P.wsPre hdet hts hleaf .unset w.log ?_ ?_ w.st d rest hrun hf
         · intro e he
-          cases hev e he with
+          obtain ⟨o, hwe⟩ := hev e he
+          cases hwe with
           | text s => rfl
           | leaf t a hl => exact hleaf t hl
           | given n hn' => simp only [givenNodeOk, Bool.and_eq_true] at hn'; exact hn'.1
           | _ => trivial
         · intro e he
-          cases hev e he with
+          obtain ⟨o, hwe⟩ := hev e he
+          cases hwe with
           | text s => rfl
           | leaf t a hl => rfl
           | given n hn' => simp only [givenNodeOk, Bool.and_eq_true] at hn'; exact hn'.2
@@ -597,17 +601,93 @@ theorem walk_events_admissible (P : Parser) (hleaf : LeafOk P.S) (isOpen : Bool)
   obtain ⟨hrun, hev⟩ := addAll_replays P (givenNodeOk P.S) rootTag kids _ _ hn w h
   refine ⟨hrun, ?_, ?_⟩
   · intro e he
-    cases hev e he with
+    obtain ⟨o, hwe⟩ := hev e he
+    cases hwe with
     | text s => rfl
     | leaf t a hl => exact hleaf t hl
     | given n hn' => simp only [givenNodeOk, Bool.and_eq_true] at hn'; exact hn'.1
     | _ => trivial
   · intro e he
-    cases hev e he with
+    obtain ⟨o, hwe⟩ := hev e he
+    cases hwe with
     | text s => rfl
     | leaf t a hl => rfl
     | given n hn' => simp only [givenNodeOk, Bool.and_eq_true] at hn'; exact hn'.2
     | _ => trivial
+
+open PM.FromDom PM.DomWalk in
+/-- **`parse` never dies with an internal error** (KeyError / TypeError / AttributeError / IndexError /
+    RecursionError, a raising callback) — it returns a document or raises ValueError —, under the guards that
+    are really needed, all decidable and all evaluated on the tie's inputs by the driver:
+    * schema (`SchemaOk`, from `detB` and `fillOkB`): deterministic, well-formed automata in which every state
+      can be completed with generatable nodes and every generatable type can be created and filled.  Without
+      it `fill_before(…, True)` answers `None` and `NodeContext.finish` dies on it (content `a+ text`:
+      `<x><a></a></x>`);
+    * rules (`Parser.rulesOk`): node / mark names exist in the schema, style rules other than `ignore` /
+      `clear_mark` rules name a mark — else `schema.nodes[rule.node]` / `schema.marks[rule.mark]` raise KeyError
+      when the rule fires;
+    * DOM and oracle (`listOk true`): no text node lacks its string (a literal `<lxmltext></lxmltext>` in the
+      source: TypeError in `re`) and no `get_attrs` callback raises.
+    The remaining failure, ValueError, is real: a rule with `skip: True` fires, a rule's attributes lack a
+    required attribute (`<a>` without `href` under a rule `a` with no `get_attrs`), a node rule names `text`. -/
+theorem parse_no_internal (P : Parser) (hS : SchemaOk P.S) (hr : P.rulesOk = true) (rootTag : String)
+    (kids : List DNode) (hk : listOk true (fun _ => true) kids = true) :
+    parse P rootTag kids ≠ .error .internal := by
+  unfold parse parseW
+  have hsafe := addAll_safe P (fun _ => true) hS hr rootTag kids hk false .unset
+  cases ha : addAll P rootTag kids false (walkInit P false .unset) with
+  | error e => rw [ha] at hsafe; simpa [Except.map, Safe] using hsafe
+  | ok w =>
+    rw [ha] at hsafe
+    dsimp only
+    have hfin := finish_safe P.S hS w.st hsafe
+    cases hf : w.st.finish P.S with
+    | error e => rw [hf] at hfin; simpa [Except.map, Safe] using hfin
+    | ok r =>
+      obtain ⟨od, rest⟩ := r
+      cases od with
+      | some d => simp [Except.map]
+      | none =>
+        -- unreachable: the root context of `parse` keeps its type (coherence of the stack)
+        exfalso
+        have hrep := addAll_replays P (fun _ => true) rootTag kids _ _ (listOk_lax kids) w ha
+        have hc := run_spec P.S (fun _ => True) (fun _ _ _ _ _ _ => trivial) P.wsPre (fun t => hS.det t 0) w.log _ w.st
+          (init_coh P.S _ .unset false) (fun e _ => by cases e <;> simp [EventOk, FinishOk]) hrep.1
+        unfold PState.finish at hf
+        cases hce : ({ w.st with open_ := 0 } : PState).closeExtra P.S w.st.isOpen with
+        | error e => simp [hce] at hf
+        | ok st1 =>
+          simp only [hce] at hf
+          obtain ⟨c1, c2, _, _⟩ := closeExtra_spec P.S (fun _ => True) ({ w.st with open_ := 0 } : PState) st1 w.st.isOpen
+            (fun _ _ _ _ _ _ => trivial) hc (by show 0 < w.st.nodes.length; have := hsafe.lt; omega) hce
+          cases hh : st1.nodes.head? with
+          | none => simp [hh] at hf
+          | some root =>
+            simp only [hh] at hf
+            obtain ⟨t, q, ht, _⟩ := Coh_known P.S _ st1.nodes c1 root (List.mem_of_head? hh)
+            simp only [ht] at hf
+            cases hfn : root.finishNode P.S (st1.isOpen || st1.topOpen) t with
+            | error e => simp [hfn, Except.map] at hf
+            | ok n => simp [hfn, Except.map] at hf
+
+open PM.FromDom PM.DomWalk in
+/-- the same for the walk of `parse_slice` (and any `preserve_whitespace`): `add_all` and `finish` do not die
+    with an internal error -/
+theorem walk_no_internal (P : Parser) (hS : SchemaOk P.S) (hr : P.rulesOk = true) (rootTag : String)
+    (kids : List DNode) (hk : listOk true (fun _ => true) kids = true) (isOpen : Bool) (pw : WS) :
+    addAll P rootTag kids false (walkInit P isOpen pw) ≠ .error .internal ∧
+    ∀ w, addAll P rootTag kids false (walkInit P isOpen pw) = .ok w → w.st.finish P.S ≠ .error .internal := by
+  have hsafe := addAll_safe P (fun _ => true) hS hr rootTag kids hk isOpen pw
+  constructor
+  · cases ha : addAll P rootTag kids false (walkInit P isOpen pw) with
+    | error e => rw [ha] at hsafe; simpa [Safe] using hsafe
+    | ok w => simp
+  · intro w ha
+    rw [ha] at hsafe
+    have hfin := finish_safe P.S hS w.st hsafe
+    cases hf : w.st.finish P.S with
+    | error e => rw [hf] at hfin; simpa [Safe] using hfin
+    | ok r => simp
 
 open PM.FromDom PM.DomWalk in
 /-- **`match_tag` answers with the first applicable candidate**: among the rules whose selector and namespace
@@ -717,6 +797,8 @@ open PM.DomWalk in
 example : listOk true (givenNodeOk S3) [domP] = true := by decide
 open PM.DomWalk in
 example : P3.rulesOk = true := by decide
+-- (`SchemaOk` = `detB` ∧ `fillOkB` is evaluated by the driver on every schema of the tie: the filling searches do not
+-- reduce in the kernel, so there is no `decide` instance here)
 -- at top level (ancestors: doc) the context rule does not apply, the plain one does; inside a p it does
 open PM.DomWalk in
 example : (matchTag P3 [0] [(⟨0, .absent, .children, "", []⟩, []), (⟨1, .absent, .children, "", []⟩, [])] 0).toOption.map
